@@ -574,12 +574,35 @@ def _module_passes(tree: ast.Module) -> None:
             rows[tgt_.id] = [list(e.elts) for e in val_.elts]
         if isinstance(st, ast.ClassDef) and any(ast.unparse(b).split(".")[-1] == "NamedTuple" for b in st.bases):
             ntuples[st.name] = [b.target.id for b in st.body if isinstance(b, ast.AnnAssign) and isinstance(b.target, ast.Name)]
+    def _rows_literal(v: ast.AST) -> bool:
+        return isinstance(v, (ast.Tuple, ast.List)) and bool(v.elts) and all(
+            isinstance(e, ast.Tuple) and e.elts and all(isinstance(x, (ast.Name, ast.Constant, ast.Lambda, ast.Attribute)) for x in e.elts)
+            for e in v.elts) and len({len(e.elts) for e in v.elts}) == 1
+
+    stores: Dict[str, int] = {}
+    for n in ast.walk(tree):
+        if isinstance(n, ast.Name) and isinstance(n.ctx, ast.Store):
+            stores[n.id] = stores.get(n.id, 0) + 1
+    local_rows: Dict[str, List[List[ast.AST]]] = {}
+    for n in ast.walk(tree):
+        if isinstance(n, ast.Assign) and n not in tree.body and len(n.targets) == 1 and isinstance(n.targets[0], ast.Name) \
+                and stores.get(n.targets[0].id) == 1 and _rows_literal(n.value):
+            local_rows[n.targets[0].id] = [list(e.elts) for e in n.value.elts]
+    mod_classes = {c.name: {m.name for m in c.body if isinstance(m, (ast.FunctionDef, ast.AsyncFunctionDef))
+                            and not any(ast.unparse(d).split(".")[-1] in ("staticmethod", "classmethod", "property") for d in m.decorator_list)}
+                   for c in tree.body if isinstance(c, ast.ClassDef)}
     rebound = {t.id for n in ast.walk(tree) if isinstance(n, (ast.Assign, ast.AugAssign, ast.AnnAssign)) and n not in tree.body
                for t in ast.walk(n.targets[0] if isinstance(n, ast.Assign) else n.target) if isinstance(t, ast.Name) and isinstance(t.ctx, ast.Store)}
 
     class _G(ast.NodeTransformer):
         def visit_Call(self, node: ast.Call):
             self.generic_visit(node)
+            # C.method(obj, a, ..) with C a class of this module and method a plain method of it  is  obj.method(a, ..)
+            if isinstance(node.func, ast.Attribute) and isinstance(node.func.value, ast.Name) and node.func.value.id in mod_classes \
+                    and node.func.attr in mod_classes[node.func.value.id] and node.args and isinstance(node.args[0], (ast.Name, ast.Attribute)) \
+                    and not isinstance(node.args[0], ast.Starred):
+                node.func = ast.copy_location(ast.Attribute(value=node.args[0], attr=node.func.attr, ctx=ast.Load()), node.func)
+                node.args = node.args[1:]
             # f(**{"a": x, "b": y})  is read as  f(a=x, b=y)
             if any(k.arg is None and isinstance(k.value, ast.Dict) for k in node.keywords):
                 kws = []
@@ -649,9 +672,16 @@ def _module_passes(tree: ast.Module) -> None:
             if isinstance(st, ast.Try):
                 for h in st.handlers:
                     h.body = unroll(h.body)
-            if isinstance(st, ast.For) and not st.orelse and isinstance(st.target, ast.Tuple) and isinstance(st.iter, ast.Name) \
-                    and st.iter.id in rows and st.iter.id not in rebound and len(rows[st.iter.id]) <= 8 \
-                    and all(isinstance(t_, ast.Name) for t_ in st.target.elts) and len(st.target.elts) == len(rows[st.iter.id][0]) \
+            rows_here = None
+            if isinstance(st, ast.For) and isinstance(st.iter, ast.Name) and st.iter.id in rows and st.iter.id not in rebound:
+                rows_here = rows[st.iter.id]
+            elif isinstance(st, ast.For) and isinstance(st.iter, ast.Name) and st.iter.id in local_rows:
+                rows_here = local_rows[st.iter.id]
+            elif isinstance(st, ast.For) and _rows_literal(st.iter):
+                rows_here = [list(e.elts) for e in st.iter.elts]
+            if isinstance(st, ast.For) and not st.orelse and isinstance(st.target, ast.Tuple) and rows_here is not None \
+                    and len(rows_here) <= 8 \
+                    and all(isinstance(t_, ast.Name) for t_ in st.target.elts) and len(st.target.elts) == len(rows_here[0]) \
                     and not any(isinstance(x, (ast.Break, ast.Continue)) for b in st.body for x in ast.walk(b)) \
                     and not any(isinstance(x, ast.Name) and x.id in {t_.id for t_ in st.target.elts} and isinstance(x.ctx, ast.Store)
                                 for b in st.body for x in ast.walk(b)):
@@ -664,7 +694,7 @@ def _module_passes(tree: ast.Module) -> None:
                     def visit_Name(self, n):
                         return _c.deepcopy(self.row[n.id]) if n.id in self.row and isinstance(n.ctx, ast.Load) else n
 
-                for row in rows[st.iter.id]:
+                for row in rows_here:
                     for b in st.body:
                         nb = _Beta().visit(_SR(row).visit(_c.deepcopy(b)))
                         nb = _G().visit(nb)
@@ -747,6 +777,24 @@ def _module_passes(tree: ast.Module) -> None:
             fn.body = prune(fn.body) or [ast.Pass()]
 
     tree.body = unroll(tree.body)
+    # a local table whose only reader was an unrolled loop is dead: its binding goes
+    dead_tables = {nm for nm in local_rows if not any(isinstance(x, ast.Name) and x.id == nm and isinstance(x.ctx, ast.Load) for x in ast.walk(tree))}
+    if dead_tables:
+        def _drop(stmts: List[ast.stmt]) -> List[ast.stmt]:
+            keep = []
+            for st in stmts:
+                if isinstance(st, ast.Assign) and len(st.targets) == 1 and isinstance(st.targets[0], ast.Name) and st.targets[0].id in dead_tables:
+                    continue
+                for fld in ("body", "orelse", "finalbody"):
+                    v = getattr(st, fld, None)
+                    if isinstance(v, list) and v and isinstance(v[0], ast.stmt):
+                        setattr(st, fld, _drop(v) or [ast.copy_location(ast.Pass(), st)])
+                if isinstance(st, ast.Try):
+                    for h in st.handlers:
+                        h.body = _drop(h.body) or [ast.copy_location(ast.Pass(), st)]
+                keep.append(st)
+            return keep
+        tree.body = _drop(tree.body)
     for fn in [n for n in ast.walk(tree) if isinstance(n, (ast.FunctionDef, ast.AsyncFunctionDef))]:
         partials(fn)
 
@@ -936,6 +984,11 @@ class Program:
                     _aliases(fn_)
                     _explaining_variables(fn_)
                 _Canon2().visit(t)
+                ast.fix_missing_locations(t)
+                from .inline import _fold_generated_aliases
+
+                for fn_ in [n for n in ast.walk(t) if isinstance(n, (ast.FunctionDef, ast.AsyncFunctionDef))]:
+                    _fold_generated_aliases(fn_)
                 ast.fix_missing_locations(t)
         for m in self.modules.values():
             for s in m.tree.body:
